@@ -420,4 +420,19 @@ pub fn run(run: &mut Run) {
     run.random("mutants", run.tier.pick(20000, 600000), mutant, check_mutant);
     run.shrink_iters = 100;
     run.random("cli", run.tier.pick(400, 10000), cli, check_cli);
+    if run.tier == crate::engine::Tier::Thorough {
+        // corpus: every valid seed file prefixed with its suffix index
+        let seeds: Vec<Vec<u8>> = seeds().iter().map(|s| {
+            let mut v = vec![s.suffix as u8];
+            v.extend_from_slice(&s.text.as_bytes()[..s.text.len().min(2000)]);
+            v
+        }).collect();
+        run.fuzz_part("no_panic", "raw", 400_000, 8, 4096, seeds, &|bytes, probe| {
+            let (file, text) = crate::fuzzdec::no_panic_input(bytes);
+            let suffix = SUFFIXES[bytes.first().copied().unwrap_or(0) as usize % SUFFIXES.len()].0.to_string();
+            let _ = file;
+            let raw = RawInput { suffix, text, fast: false };
+            (check_raw(&raw, probe), serde_json::to_value(&raw).unwrap_or_default())
+        });
+    }
 }
